@@ -121,6 +121,11 @@ class State:
     def fresh_tag(self):
         r = self.rng
         u = r.random()
+        if u < 0.07 and self.qubits:
+            # a plain string tag that spells the wire id of one of the program's qubits (tags, qubits, operations and
+            # sub-circuits share one constants table)
+            q = _choice(r, self.qubits)
+            return ("raw", "%d_%d" % (q[1], q[2]) if q[0] == "g" else (str(q[1]) if q[0] == "l" else q[1]))
         if u < 0.45:
             return ("raw", _choice(r, RAW_TAGS))
         if u < 0.55:
